@@ -243,9 +243,8 @@ class Slice(object):
                 d.appendleft(val)
         else:
             if start >= 0:
-                # skip *start* values
-                for _ in zip(range(start), flow):
-                    pass
+                # skip *start* values (without keeping any of them)
+                next(itertools.islice(flow, start, start), None)
                 # stop=None is handled in islice
                 # stop is negative
                 d = fill_deque(flow, -stop)
